@@ -27,7 +27,7 @@ PROPS = {
     'C12': {'design_ref': '§C12', 'not_decided': ['round trip of ChannelManager, ChannelMonitor, ChannelMonitorUpdate, graph, scorer, sweeper', 'behavioural equivalence after reload']},
     'C13': {'design_ref': '§C12', 'not_decided': ['messages with keys/signatures', 'feature vectors', 'decoding totality on arbitrary-length input']},
     'C14': {'design_ref': '§C14', 'not_decided': ['that peeling yields each hop payload (ChaCha20 stream, filler correctness)', 'the cryptography itself (HMAC uninterpreted: that the gate compares against the HMAC of hop data + payment hash is proved)', 'failure attribution to the right hop']},
-    'C15': {'design_ref': '§C15', 'not_decided': ['handshake acts (ECDH)', 'stream reassembly and back-pressure in peer_handler.rs', 'Init-before-anything', 'panic freedom of the peer handler']},
+    'C15': {'design_ref': '§C15', 'not_decided': ['handshake acts (ECDH)', 'back-pressure (pausing and resuming reads) and message dispatch after decryption in peer_handler.rs', 'Init-before-anything', 'panic freedom of the rest of the peer handler']},
     'C16': {'design_ref': '§C16', 'not_decided': ['connectivity', 'capacity shared across paths', 'limits', 'does not report failure when a path exists (get_route)']},
     'C17': {'design_ref': '§C17', 'not_decided': ['the signature on channel_update (secp_verify_sig! inside update_channel_internal) and the cryptography itself (uninterpreted)', 'rejection of updates for unknown channels (map lookup)', 'removal of permanently failed channels and of nodes left without channels', 'order-independence and duplication-insensitivity of the whole graph (history property)', 'serialization of the graph', 'rapid-gossip-sync snapshots', 'that the sliced tests are applied on every path that stores information']},
     'C18': {'design_ref': '§C18', 'not_decided': ['the cryptography itself (ECDSA / Schnorr uninterpreted: that each object is checked against the right key over the right hash is proved)', 'bech32 checksum', 'merkle root construction', 'metadata HMACs (signer.rs)', 'string-level parsing totality', 'BOLT-12 TLV stream parsing and semantic validation']},
